@@ -203,7 +203,10 @@ def rule_safety(w):
                     else:
                         undecided[e.rng.cls] += 1
                     continue
-                ok = fk.within(e.rng, e.dom) if e.dom is not None else None
+                if e.dom is None:
+                    ck.incomplete("E2.safety", "%s: adjactor %s of image_*() not nameable" % (inst, render(e.node)))
+                    continue
+                ok = fk.within(e.rng, e.dom)
                 key = "%s/%s.%s(%s)" % (name, e.obj, e.node.get("n"), e.node_canon)
                 detail = "%s.%s(%s): domain node in %r, adjactor domain [0,%r)" % (e.obj, e.node.get("n"), render(e.node_expr), e.rng, e.dom)
                 obs.setdefault(key, []).append((bool(ok), detail, fn.file, e.node.get("l")))
@@ -290,8 +293,13 @@ def rule_unsigned_pred(w):
             ty = fn.ntype(n) or ""
             if not ("unsigned" in ty or "Index" in ty or "size_t" in ty or "size_type" in ty):
                 continue
-            guard = _nonempty_guard(fk, fn, n, par, ext, rhs.c)
+            unclear = []
+            guard = _nonempty_guard(fk, fn, n, par, ext, rhs.c, unclear)
             key = "%s/%s-%d" % (short_noinst(fn), ext, rhs.c)
+            if guard is None and unclear:
+                ck.incomplete("E2.unsigned-pred", "%s (%s:%s): `%s` is dominated by the condition %s on %s which is not classified as a non-emptiness check" % (
+                    key, featlib.rel(fn.file), n.get("l"), render(n), render(unclear[0]), ext))
+                continue
             d = "`%s` on an unsigned extent: %s" % (render(n), ("guarded by " + guard) if guard else
                                                     "no dominating check that %s >= %d (empty object: wraps to 2^64-1)" % (ext, rhs.c))
             obs.setdefault(key, []).append((guard is not None, d, fn.file, n.get("l")))
@@ -398,11 +406,40 @@ def _leaves(stmt):
     return False
 
 
-def _nonempty_guard(fk, fn, node, par, ext, need):
+def _mentions_extent(fk, cond, ext):
+    for x in walk(cond):
+        if x.get("k") in ("MCall", "Ref"):
+            a = _extent_atom(fk, fk.fn, x)
+            if a is not None and _same_extent(fk, a, ext):
+                return True
+        if x.get("k") == "MCall" and x.get("n") == "empty":
+            key = fk.okey(x.get("obj")) if x.get("obj") is not None else fk.this_key
+            if _same_extent(fk, "size(%s)" % key, ext):
+                return True
+    return False
+
+
+def _nonempty_guard(fk, fn, node, par, ext, need, unclear=None):
+    unclear = unclear if unclear is not None else []
     cur = node
     while id(cur) in par:
         p = par[id(cur)]
         k = p.get("k")
+        if k in ("If", "Cond", "For", "While") and p.get("c") is not None and cur is not p.get("c") \
+                and _test_kind(fk, p.get("c"), ext, need) == 0 and _mentions_extent(fk, p.get("c"), ext):
+            unclear.append(p.get("c"))
+        if k == "Block":
+            for s0 in p.get("s", []):
+                if s0 is cur:
+                    break
+                s1 = strip(s0)
+                c0 = None
+                if s1.get("k") == "Call" and (s1.get("callee") or "").endswith("FEAT::assertion") and s1.get("a"):
+                    c0 = s1["a"][0]
+                elif s1.get("k") == "If" and _leaves(s1.get("then")):
+                    c0 = s1.get("c")
+                if c0 is not None and _test_kind(fk, c0, ext, need) == 0 and _mentions_extent(fk, c0, ext):
+                    unclear.append(c0)
         if k in ("If", "Cond"):
             t = _test_kind(fk, p.get("c"), ext, need)
             if t == 1 and cur is p.get("then"):
@@ -457,7 +494,16 @@ class Render:
             img = fk.norm(fields["this._num_nodes_image"]) if "this._num_nodes_image" in fields else None
             self.exits.append((node, dom, img))
         self.role = None
+        self.role_why = ""
         kinds = set()
+        # a domain pointer array whose extent is not a size expression / an image count assigned from a non-size: not evaluable
+        pk = [e for e in fk.events if e.kind == "alloc" and e.arr.key == self.P]
+        if any(e.arr.extent is None for e in pk):
+            self.role_why = "extent %s of _domain_ptr is not a size expression" % ", ".join(getattr(e.arr, "extent_canon", "?") for e in pk if e.arr.extent is None)
+        if any(e.kind == "field" and e.key == "this._num_nodes_image" and e.val is None for e in fk.events):
+            self.role_why = "_num_nodes_image is assigned a value that is not a size expression"
+        if any(arrs.get(self.P) is not None and arrs[self.P][1] for node, fields, arrs in fk.returns):
+            self.role_why = "_domain_ptr is allocated conditionally"
         for node, dom, img in self.exits:
             if dom is not None and img is not None and (dom, img) == tuple(fk.norm(x) for x in self.plain):
                 kinds.add("plain")
@@ -465,7 +511,10 @@ class Render:
                 kinds.add("transposed")
             else:
                 kinds.add("bad")
-        if len(kinds) == 1:
+        if self.role_why or fk.unknown:
+            self.role = "unknown"
+            self.role_why = self.role_why or "function contains constructs that are not modelled"
+        elif len(kinds) == 1:
             self.role = kinds.pop()
         else:
             self.role = "bad"
@@ -483,11 +532,18 @@ class Render:
                     cur = []
         # mask arrays: local zero-initialised arrays tested in conditions
         self.masks = set()
+        self.mask_unknown = ""
         for e in fk.events:
             if e.kind == "if":
                 mt = mask_test(e.canon)
                 if mt and mt[0] in fk.arrs and fk.arrs[mt[0]].owner == "local":
                     self.masks.add(mt[0])
+                elif not mt:
+                    # a condition on a local scratch array in another spelling: a filter this model does not read
+                    for x in walk(e.cond):
+                        a = fk.sub_arr(x) if (x.get("k") != "Cast" and _subscript(x) is not None) else None
+                        if a is not None and a.owner == "local" and a.fresh:
+                            self.mask_unknown = "condition %s on the scratch array %s is not a recognised duplicate test" % (render(e.cond), a.key)
         self.injectifying = bool(self.masks)
 
     # an event that belongs to the pass-specific action (count / fill), not to the shared skeleton
@@ -565,6 +621,9 @@ def rule_renders(w):
                     renders[ck_] = Render(w, callee)
                 r = renders[ck_]
                 problems = []
+                if r.role == "unknown" or r.mask_unknown:
+                    ck.incomplete("E13.render-dispatch", "%s: callee %s not evaluable (%s)" % (key, callee.name, r.role_why or r.mask_unknown))
+                    continue
                 if r.role == "bad":
                     problems.append("callee %s has no consistent domain/image roles (see E1.render-roles)" % callee.name)
                 elif (r.role == "transposed") != want_t:
@@ -617,6 +676,9 @@ def render_roles(w, r):
     ck = w.ck
     fk = r.fk
     name = short(r.fn)
+    if r.role == "unknown":
+        ck.incomplete("E1.render-roles", "%s: %s" % (name, r.role_why))
+        return
     for n, (node, dom, img) in enumerate(r.exits):
         key = "%s/exit%d" % (name, n) if len(r.exits) > 1 else name
         pl = tuple(fk.norm(x) for x in r.plain)
@@ -658,6 +720,9 @@ def render_two_pass(w, r):
     def ob(rule, sub, ok, detail, line=None):
         ck.ob(rule, "%s/%s" % (name, sub) if sub else name, ok, detail, fn.file, line or fn.line)
 
+    if fk.unknown or r.role == "unknown" or r.mask_unknown:
+        ck.incomplete("E3.two-pass", "%s: not evaluable (%s)" % (name, "; ".join(x[0] for x in fk.unknown) or r.role_why or r.mask_unknown))
+        return
     # ---- coverage of the pointer array -------------------------------------------------------------
     ok, detail = coverage(fk, P)
     if ok is None:
@@ -745,6 +810,7 @@ def render_two_pass(w, r):
 
     # ---- offsets / cursors ----------------------------------------------------------------------------------
     problems = []
+    unclear = []
     pext = fk.norm(fk.arrs[P].extent) if fk.arrs.get(P) is not None and fk.arrs[P].extent is not None else None
     counters = {e.var for e in units_c if e.kind == "scalar"}
     pcount = [e for e in units_c if e.kind == "sub"]
@@ -792,6 +858,8 @@ def render_two_pass(w, r):
         else:
             pe = [e for e in prefix[1] if e.kind == "sub" and e.arr.key == P and e.mode == "write"]
             lp = prefix[0]
+            if lp.kind != "range" or lp.hi is None:
+                unclear.append("the bounds of the prefix-sum loop %s are not size expressions" % lp.canon)
             okp = (len(pe) == 1 and pe[0].idx_canon == "($0 + 1)" and lp.kind == "range" and lp.lo == 0 and pext is not None and lp.hi is not None
                    and fk.norm(lp.hi) + 1 == pext and len(pe[0].frames) == 1
                    and ((pe[0].op == "+=" and pe[0].val_canon == "%s[$0]" % P) or
@@ -803,11 +871,20 @@ def render_two_pass(w, r):
                 problems.append("the prefix sum is not between the counting and the filling pass")
         # cursor array
         if cursor_init is None:
-            # cursor may be the offset array itself (then it has to be shifted back) - not recognised
-            problems.append("no cursor array initialised from the offsets (fill through the offsets themselves is not recognised)")
+            # the offsets themselves may serve as fill cursors; then they have to be restored (shifted back) afterwards
+            used = [e for e in fill_pass[1] if e.kind == "sub" and e.arr.key == P and e.mode == "write"]
+            after = [e for e in fk.events if e.kind == "sub" and e.arr.key == P and e.mode == "write" and e.seq > fill_pass[2].seq]
+            if used and not after:
+                problems.append("the offsets are advanced as fill cursors (line %s) and never restored: every list start ends up at its list end" % used[0].node.get("l"))
+            elif used:
+                unclear.append("offsets used as fill cursors with a later restoring loop: shift-back idiom not modelled")
+            else:
+                unclear.append("fill cursor not recognised (no cursor array initialised from the offsets)")
         else:
             ce = [e for e in cursor_init[1] if e.kind == "cursor-array-init"]
             lp = cursor_init[0]
+            if lp.kind != "range" or lp.hi is None:
+                unclear.append("the bounds of the cursor initialisation loop %s are not size expressions" % lp.canon)
             okc = (len(ce) == 1 and ce[0].sel_canon == "$0" and ce[0].start_canon == "%s[$0]" % P and ce[0].target.key == I and lp.kind == "range" and lp.lo == 0
                    and lp.hi is not None and pext is not None and fk.norm(lp.hi) + 1 == pext and ce[0].arr.extent is not None and fk.norm(ce[0].arr.extent) + 1 == pext)
             if not okc:
@@ -823,6 +900,8 @@ def render_two_pass(w, r):
         last_def = prefix[2].seq if prefix is not None else count_pass[2].seq
     # offsets are final: no write to P after they are defined
     late = [e for e in fk.events if e.kind == "sub" and e.arr.key == P and e.mode == "write" and e.seq > last_def]
+    if late and r.role == "transposed" and cursor_init is None:
+        late = []          # judged above (offsets used as cursors)
     if late:
         problems.append("_domain_ptr is modified after the offsets are final (line %s) and not restored" % late[0].node.get("l"))
     # total: extent of the index array is the total count
@@ -858,21 +937,33 @@ def render_two_pass(w, r):
             problems.append("the extent of _image_idx (%s) is not the total number of counted adjacencies" % getattr(a.arr, "extent_canon", "?"))
         if a.seq > fill_pass[1][0].seq:
             problems.append("_image_idx is allocated after the filling pass started")
-    ck.ob("E3.offsets", name, not problems, "; ".join(problems) if problems else
-          ("offsets: running count stored per node + terminal offset; fill cursor starts at _domain_ptr[node]; |_image_idx| = total count" if r.role == "plain" else
-           "offsets: zero-initialised counts, prefix sum over the full extent, cursor array over all nodes, count node = store node; |_image_idx| = total count"),
-          fn.file, fill_pass[0].node.get("l"))
+    if pext is None:
+        unclear.append("extent of _domain_ptr is not a size expression")
+    if unclear:
+        ck.incomplete("E3.offsets", "%s: %s" % (name, "; ".join(unclear)))
+    else:
+      ck.ob("E3.offsets", name, not problems, "; ".join(problems) if problems else
+            ("offsets: running count stored per node + terminal offset; fill cursor starts at _domain_ptr[node]; |_image_idx| = total count" if r.role == "plain" else
+             "offsets: zero-initialised counts, prefix sum over the full extent, cursor array over all nodes, count node = store node; |_image_idx| = total count"),
+            fn.file, fill_pass[0].node.get("l"))
 
     # ---- stored values are image nodes of the result ---------------------------------------------------
     img = fk.fields.get("this._num_nodes_image")
     problems = []
-    for e in writes_f:
+    vk_unclear = [e for e in writes_f if not isinstance(e.val_rng, Rng)]
+    if img is None or vk_unclear:
+        ck.incomplete("E2.value-kind", "%s: kind of the stored value %s / of _num_nodes_image not evaluable" % (name, ", ".join(render(e.val) for e in vk_unclear) or "-"))
+        writes_f_vk = []
+    else:
+        writes_f_vk = writes_f
+    for e in writes_f_vk:
         vr = e.val_rng
-        if img is None or not isinstance(vr, Rng) or not fk.within(vr, img):
+        if not fk.within(vr, img):
             problems.append("stored value %s has kind %r, the result's image nodes are [0,%r)" % (render(e.val), vr, fk.norm(img) if img is not None else None))
-    ck.ob("E2.value-kind", name, not problems and bool(writes_f), "; ".join(problems) if problems else
-          "stored values %s in %r = image nodes of the result [0,%r)" % (", ".join(render(e.val) for e in writes_f), writes_f[0].val_rng if writes_f else None, fk.norm(img)),
-          fn.file, writes_f[0].node.get("l") if writes_f else fn.line)
+    if writes_f_vk:
+      ck.ob("E2.value-kind", name, not problems and bool(writes_f), "; ".join(problems) if problems else
+            "stored values %s in %r = image nodes of the result [0,%r)" % (", ".join(render(e.val) for e in writes_f), writes_f[0].val_rng if writes_f else None, fk.norm(img)),
+            fn.file, writes_f[0].node.get("l") if writes_f else fn.line)
 
     # ---- mask protocol of the duplicate filter ------------------------------------------------------------
     if r.injectifying:
@@ -1008,6 +1099,19 @@ def rule_permutation(w):
                 writes = [e for e in evs if e.kind == "sub" and e.mode == "write" and e.arr.key in ("this._perm_pos", "this._swap_pos")]
                 got = {(e.arr.key, e.idx_canon, e.val_canon) for e in writes}
                 problems = []
+                unclear = []
+                if fk.unknown:
+                    unclear.append("; ".join(x[0] for x in fk.unknown))
+                for e in evs:
+                    if e.kind == "call" and e.obj == "this" and e.name not in ("calc_swap_from_perm", "calc_perm_from_swap", "size") and not (e.callee or "").startswith("std::"):
+                        unclear.append("arm calls %s, whose effect on the arrays is not modelled" % e.name)
+                for e in writes:
+                    for f in e.frames:
+                        if f.kind == "loop" and (f.loop is None or f.loop.kind not in ("range", "down") or getattr(f.loop, "hi", None) is None):
+                            unclear.append("assignment %s[%s] in the loop %s whose bounds are not size expressions" % (e.arr.key, e.idx_canon, f.canon))
+                if unclear:
+                    ck.incomplete("E13.perm-dispatch", "%s: %s" % (key, "; ".join(unclear)))
+                    continue
                 if got != want:
                     problems.append("assignments {%s} differ from the documented conversion {%s}" % (
                         "; ".join("%s[%s] = %s" % x for x in sorted(got - want)) or "-", "; ".join("%s[%s] = %s" % x for x in sorted(want - got)) or "-"))
@@ -1024,8 +1128,6 @@ def rule_permutation(w):
                         # i runs n-1 .. 1, the subscripts use i-1: positions n-2 .. 0 (the last swap position is a fixed point by definition)
                         if not (lp.lo == 1 and fk.norm(lp.hi) in (n, n + 1)):
                             problems.append("count-down loop %s does not visit the positions num_entries-2 .. 0" % lp.canon)
-                    else:
-                        problems.append("loop %s not recognised" % lp.canon)
                     if any(f.kind == "if" for f in e.frames):
                         problems.append("assignment %s[%s] is conditional" % (e.arr.key, e.idx_canon))
                 if ename == "inv_swap" and len(writes) == 3:
@@ -1100,6 +1202,11 @@ def rule_permutation(w):
     for fn in one(w, r"Permutation::apply$"):
         fk = w.fk(fn)
         pn = [p["n"] for p in fn.params]
+        odd = [e.loop.canon for e in fk.events if e.kind == "loop-end" and (e.loop.kind not in ("range", "down") or getattr(e.loop, "hi", None) is None)]
+        if fk.unknown or odd:
+            ck.incomplete("E2.perm-forms", "%s: loops not modelled (%s)" % (short(fn), "; ".join([x[0] for x in fk.unknown] + odd)))
+            obs.setdefault("Permutation::apply(%s)" % ",".join(pn), [])
+            continue
         if pn == ["y", "x", "invert"]:
             problems = []
             wr = [e for e in fk.events if e.kind == "sub" and e.mode == "write" and e.arr.key == "y"]
@@ -1163,6 +1270,8 @@ def rule_permutation(w):
             obs.setdefault("Permutation::apply(x,invert)", []).append((not problems, "; ".join(problems) if problems else
                                                                      "forward: ascending transpositions x[p]<->x[swap_pos[p]], inverse: the same transpositions descending", fn.file, fn.line))
     for key, lst in sorted(obs.items()):
+        if not lst:
+            continue
         bad = [x for x in lst if not x[0]]
         pick = bad[0] if bad else lst[0]
         ck.ob("E2.perm-forms", key, not bad, pick[1], pick[2], pick[3])
@@ -1218,6 +1327,9 @@ def rule_coloring(w):
         fn = fns[0]
         fk = w.fk(fn)
         name = "Coloring(%s)" % ",".join(params)
+        if fk.unknown:
+            ck.incomplete("E7.greedy-colour", "%s: %s" % (name, "; ".join(x[0] for x in fk.unknown)))
+            continue
         C = "this._coloring"
         # the node loop: the top-level loop in which _coloring[node] receives a colour variable
         assigns = [e for e in fk.events if e.kind == "sub" and e.mode == "write" and e.arr.key == C and any(f.kind == "if" for f in e.frames)]
@@ -1339,6 +1451,9 @@ def rule_cuthill(w):
         return
     fn = fns[0]
     fk = w.fk(fn)
+    if fk.unknown:
+        ck.incomplete("E7.cm-insert", "CuthillMcKee::compute: %s" % "; ".join(x[0] for x in fk.unknown))
+        return
     PA = "perm._perm_pos"
     MASK = None
     ins = [e for e in fk.events if e.kind == "sub" and e.mode == "write" and e.arr.key == PA and e.op == "=" and not (e.val_canon or "").startswith(PA + "[")
@@ -1388,33 +1503,54 @@ def rule_cuthill(w):
             cs = [f for f in e.frames if f.kind == "case"]
             if cs:
                 sel.setdefault(id(cs[-1].node), (cs[-1], []))[1].append(e)
+    # state in which the first unprocessed node is met: `root` still has its initial value (it is assigned only when a candidate is
+    # accepted), the running best value its initialiser
+    rinit = fk.size(fk.locals[rootvar].get("init")) if fk.locals.get(rootvar, {}).get("init") is not None else None
+    in_arms = {id(e) for fr, evs in sel.values() for e in evs}
+    stray = [e for e in fk.events if e.kind == "scalar" and e.var == rootvar and id(e) not in in_arms]
     for fr, evs in sel.values():
         for lab in fr.labels:
             ename = lab.rsplit("::", 1)[-1]
-            problems, tot = [], []
+            problems, tot, unknown = [], [], []
             for e in evs:
                 lps = [f for f in e.frames if f.kind == "loop" and f.loop is not None and f.loop.kind == "range"]
                 ifs = [f for f in e.frames if f.kind == "if" and f.branch == "then"]
-                if not lps or e.val_canon != "$%d" % lps[-1].loop.depth or lps[-1].loop.lo != 0 or fk.norm(lps[-1].loop.hi) != fk.norm(Lin.atom("Dom(graph)")):
+                if not lps or lps[-1].loop.hi is None:
+                    unknown.append("the loop around the root candidate %s is not a counted loop" % e.val_canon)
+                    continue
+                if e.val_canon != "$%d" % lps[-1].loop.depth or lps[-1].loop.lo != 0 or fk.norm(lps[-1].loop.hi) != fk.norm(Lin.atom("Dom(graph)")):
                     problems.append("root candidate %s is not the variable of a loop over all nodes" % e.val_canon)
                     continue
-                j = e.val_canon
-                cond = ifs[-1].node.get("c") if ifs else None
-                conj = _conjuncts(cond)
-                cc = [fk_canon_in(fk, c, e) for c in conj]
-                if not any(c.startswith("!%s[%s]" % (MASK, j)) for c in [f.canon for f in ifs] + _split_canon(ifs[-1].canon if ifs else "")):
-                    problems.append("a node is accepted as root without the test !%s[%s]" % (MASK, j))
-                # totality: every other conjunct must hold for the first unmarked node
-                for c in _split_canon(ifs[-1].canon if ifs else ""):
-                    if c.startswith("!%s[" % MASK):
-                        continue
-                    t = _first_candidate_accepted(fk, fn, c, e)
-                    if t is not True:
-                        tot.append(t or "condition %s not understood" % c)
+                jvar = lps[-1].loop.var
+                # variables holding the best value so far: assigned next to the root in the accepting branch, initialised before the loop
+                best = {}
+                for m in fk.events:
+                    if m.kind == "scalar" and m.var != rootvar and m.op == "=" and frames_key(m.frames) == frames_key(e.frames):
+                        v = fk.locals.get(m.var)
+                        others = [x for x in fk.events if x.kind == "scalar" and x.var == m.var and frames_key(x.frames) != frames_key(e.frames)]
+                        if v is not None and v.get("init") is not None and not others:
+                            best[m.var] = fk.size(v["init"])
+                st = {"root": rootvar, "rinit": rinit if not stray else None, "best": best, "j": jvar, "mask": MASK}
+                conds = [f.node.get("c") for f in ifs]
+                vals = [_eval_first(fk, c, st) for c in conds]
+                guarded = any(_mentions_unmarked(fk, c, st) for c in conds)
+                if not guarded:
+                    problems.append("a node is accepted as root without the test !%s[j]" % MASK)
+                val, why = _and([v for v in vals]) if vals else (True, [])
+                if val is True:
+                    pass
+                elif val is None:
+                    unknown.extend(why or ["selection condition %s not evaluable" % " && ".join(render(c) for c in conds)])
+                else:
+                    tot.extend(why)
+            if unknown:
+                ck.incomplete("E13.root-total", "CuthillMcKee::compute/%s: %s" % (ename, "; ".join(unknown)))
+                continue
             ck.ob("E7.cm-root-guard", "CuthillMcKee::compute/%s" % ename, not problems, "; ".join(problems) if problems else
                   "root candidates of %s are taken from a loop over all nodes under !%s[j]" % (ename, MASK), fn.file, fr.node.get("l"))
-            ck.ob("E13.root-total", "CuthillMcKee::compute/%s" % ename, not tot, "; ".join(tot) if tot else
-                  "%s: the first unprocessed node is always accepted, so a root exists whenever a node is left" % ename, fn.file, fr.node.get("l"))
+            ck.ob("E13.root-total", "CuthillMcKee::compute/%s" % ename, not tot, ("at the first unprocessed node (root still %r) the selection condition can be false: " % rinit + "; ".join(tot)) if tot else
+                  "%s: the selection condition holds at the first unprocessed node (root still has its initial value %r), so a root exists whenever a node is left" % (ename, rinit),
+                  fn.file, fr.node.get("l"))
     # ---- finalisation ----------------------------------------------------------------------------------
     calls = [e for e in fk.events if e.kind == "call" and e.name == "calc_swap_from_perm" and e.obj == "perm" and not e.frames]
     rets = [n for n, f, a in fk.returns if n is not None]
@@ -1434,59 +1570,119 @@ def _is_perm_elem(fk, val, key):
     return False
 
 
-def _conjuncts(c):
+def _mask_read(fk, n, st):
+    """n reads mask[j] (possibly through vector<bool>'s reference conversion)"""
+    n = strip(n)
+    while n is not None and n.get("k") == "MCall" and (n.get("n") or "").startswith("operator") and not n.get("a"):
+        n = strip(n.get("obj"))
+    sub = _subscript(n) if n is not None else None
+    if sub is None:
+        return False
+    a = fk.sub_arr(n)
+    ix = strip(sub[1])
+    return a is not None and a.key == st["mask"] and ix.get("k") == "Ref" and ix.get("d") == st["j"]
+
+
+def _mentions_unmarked(fk, c, st):
     c = strip(c)
     if c is None:
-        return []
+        return False
+    if c.get("k") == "Un" and c.get("op") == "!" and _mask_read(fk, c["e"], st):
+        return True
     if c.get("k") == "Bin" and c.get("op") == "&&":
-        return _conjuncts(c["lhs"]) + _conjuncts(c["rhs"])
-    return [c]
+        return _mentions_unmarked(fk, c["lhs"], st) or _mentions_unmarked(fk, c["rhs"], st)
+    return False
 
 
-def _split_canon(s):
-    """split a canonical conjunction '(a && b)' at top level"""
-    s = s.strip()
-    if not s:
-        return []
-    if s.startswith("(") and s.endswith(")"):
-        depth = 0
-        for i, ch in enumerate(s):
-            if ch == "(":
-                depth += 1
-            elif ch == ")":
-                depth -= 1
-            elif depth == 1 and s[i:i + 4] == " && ":
-                return _split_canon(s[1:i]) + _split_canon(s[i + 4:-1])
-    return [s]
-
-
-def fk_canon_in(fk, c, e):
-    return ""
-
-
-def _first_candidate_accepted(fk, fn, c, ev):
-    """the conjunct `key <op> best` of a best-candidate search must be true for EVERY node while `best` still has its initial
-    value, otherwise no root is found although unprocessed nodes exist.  Keys are node degrees: any value >= 0
-    (Graph::degree: 'might be greater than the total number of image nodes if the graph is not injective')."""
-    m = re.match(r"^\((.+) (<|>|<=|>=) (\w+)\)$", c)
-    if not m:
+def _operand(fk, n, st):
+    """('lin', Lin) for a value known in the first-candidate state, ('key',) for a per-node key (node degree: any value >= 0), None"""
+    n = strip(n)
+    if n is None:
         return None
-    key, op, best = m.group(1), m.group(2), m.group(3)
-    inits = [n for n in fn.nodes() if n.get("k") == "Var" and n.get("n") == best and n.get("init") is not None]
-    if len(inits) != 1:
+    if n.get("k") == "Ref" and n.get("d") == st["root"]:
+        return ("lin", fk.norm(st["rinit"])) if st["rinit"] is not None else None
+    if n.get("k") == "Ref" and n.get("d") in st["best"]:
+        b = st["best"][n["d"]]
+        return ("lin", fk.norm(b)) if b is not None else None
+    sub = _subscript(n)
+    if sub is not None:
+        ix = strip(sub[1])
+        a = fk.sub_arr(n)
+        if a is not None and a.key != st["mask"] and ix.get("k") == "Ref" and ix.get("d") == st["j"]:
+            return ("key",)
         return None
-    init = fk.size(inits[0]["init"])
-    if init is None:
-        return None
-    if op == ">":
-        return "`%s > %s` with %s initially %r rejects every node whose degree is <= %r (e.g. isolated nodes of degree 0): no root is found" % (key, best, best, init, init)
-    if op == ">=":
-        return True if (init.is_const() and init.c == 0) else "`%s >= %s` with %s initially %r rejects nodes of smaller degree" % (key, best, best, init)
-    if op in ("<", "<="):
-        ty = fn.type(inits[0].get("t")) or ""
-        return "`%s %s %s` with %s initially %r rejects every node whose degree is %s %r; degrees are not bounded by the node count when adjacencies are duplicated" % (
-            key, op, best, best, init, ">=" if op == "<" else ">", init)
+    s = fk.size(n)
+    if s is not None:
+        return ("lin", fk.norm(s))
     return None
+
+
+def _nonneg(lin):
+    return lin.c >= 0 and all(v >= 0 for v in lin.t.values())
+
+
+def _eval_first(fk, c, st):
+    """three-valued truth of a selection condition at the first unprocessed node: (True | False | 'maybe' | None, reasons)"""
+    c = strip(c)
+    if c is None:
+        return None, []
+    k = c.get("k")
+    if k == "Un" and c.get("op") == "!":
+        if _mask_read(fk, c["e"], st):
+            return True, []          # the node considered is unprocessed
+        v, why = _eval_first(fk, c["e"], st)
+        return ({True: False, False: True}.get(v, v)), why
+    if _mask_read(fk, c, st):
+        return False, ["the node is required to be processed already"]
+    if k == "Bin" and c.get("op") == "&&":
+        return _and([_eval_first(fk, c["lhs"], st), _eval_first(fk, c["rhs"], st)])
+    if k == "Bin" and c.get("op") == "||":
+        vals = [_eval_first(fk, c["lhs"], st), _eval_first(fk, c["rhs"], st)]
+        if any(v is True for v, w_ in vals):
+            return True, []
+        if any(v is None for v, w_ in vals):
+            return None, [x for v, w_ in vals for x in w_ if v is None]
+        return ("maybe" if any(v == "maybe" for v, w_ in vals) else False), [x for v, w_ in vals for x in w_]
+    if k == "Bin" and c.get("op") in ("<", "<=", ">", ">=", "==", "!="):
+        op = c["op"]
+        l, r = _operand(fk, c["lhs"], st), _operand(fk, c["rhs"], st)
+        if l is None or r is None:
+            return None, ["comparison %s not evaluable in the first-candidate state" % render(c)]
+        if l[0] == "lin" and r[0] == "key":
+            l, r = r, l
+            op = {"<": ">", "<=": ">=", ">": "<", ">=": "<=", "==": "==", "!=": "!="}[op]
+        if l[0] == "lin" and r[0] == "lin":
+            d = l[1] - r[1]
+            table = {">=": (_nonneg(d), _nonneg(-d - 1)), ">": (_nonneg(d - 1), _nonneg(-d)), "<=": (_nonneg(-d), _nonneg(d - 1)), "<": (_nonneg(-d - 1), _nonneg(d)),
+                     "==": (d == Lin.const(0), _nonneg(d - 1) or _nonneg(-d - 1)), "!=": (_nonneg(d - 1) or _nonneg(-d - 1), d == Lin.const(0))}
+            t, f = table[op]
+            if t:
+                return True, []
+            if f:
+                return False, ["`%s` is false (%r vs %r)" % (render(c), l[1], r[1])]
+            return None, ["`%s` (%r vs %r) not decidable" % (render(c), l[1], r[1])]
+        if l[0] == "key" and r[0] == "lin":
+            b = r[1]
+            if op == ">=" and b == Lin.const(0):
+                return True, []
+            if op in (">", ">="):
+                return "maybe", ["`%s` fails for a node whose degree is %s %r (e.g. an isolated node of degree 0)" % (render(c), "<=" if op == ">" else "<", b)]
+            if op in ("<", "<="):
+                return "maybe", ["`%s` fails for a node whose degree is %s %r (degrees exceed the node count when adjacencies are duplicated, see Graph::degree)" % (
+                    render(c), ">=" if op == "<" else ">", b)]
+            return "maybe", ["`%s` depends on the node's degree" % render(c)]
+        return None, ["comparison %s between two per-node keys" % render(c)]
+    return None, ["condition %s not evaluable" % render(c)[:80]]
+
+
+def _and(vals):
+    if any(v is False for v, w_ in vals):
+        return False, [x for v, w_ in vals for x in w_ if v is False]
+    if any(v is None for v, w_ in vals):
+        return None, [x for v, w_ in vals for x in w_ if v is None]
+    if all(v is True for v, w_ in vals):
+        return True, []
+    return "maybe", [x for v, w_ in vals for x in w_ if v == "maybe"]
 
 
 # -------------------------------------------------------------------------------------------------
@@ -1585,13 +1781,33 @@ def rule_serial(w):
         checks.append((nm, a is not None and a == b and a[2] is not None, "writer: %s, reader (under the writer's header): %s" % (a, b), (rseq[i][3].node.get("l") if i < len(rseq) else rfn.line)))
     if len(wd) != 3 or len(rdd) != 3:
         checks.append(("payload/sections", False, "writer has %d payload steps, reader %d (expected pointer array, advance, index array)" % (len(wd), len(rdd)), rfn.line))
+    unclear_names = set()
+    if ep is None or 2 not in W or W[2][0] is None:
+        unclear_names.add("header/num-domain")
+    if ei is None or 4 not in W or W[4][0] is None:
+        unclear_names.add("header/num-indices")
+    if slot_img is None or wimg is None:
+        unclear_names.add("header/num-image")
+    if ws is None or rs is None:
+        unclear_names.add("payload/start")
+    for i, nm in enumerate(("payload/_domain_ptr", "payload/advance", "payload/_image_idx")):
+        for dsc in (wd, rdd):
+            if i < len(dsc) and dsc[i][2] is None:
+                unclear_names.add(nm)
+    if wk.unknown or rk.unknown:
+        ck.incomplete("E12.serial-layout", "serialize / Graph(buffer) contain constructs that are not modelled: %s" % "; ".join(x[0] for x in wk.unknown + rk.unknown))
+        checks = []
     for nm, ok, d, line in checks:
+        if not ok and nm in unclear_names:
+            ck.incomplete("E12.serial-layout", "Graph::serialize<->Graph(buffer)/%s: a size is not a size expression (%s)" % (nm, d))
+            continue
         ck.ob("E12.serial-layout", "Graph::serialize<->Graph(buffer)/%s" % nm, bool(ok), d, rfn.file, line)
     # ---- sort_indices ------------------------------------------------------------------------------------
     for fn in one(w, r"Graph::sort_indices$"):
         fk = w.fk(fn)
         calls = [e for e in fk.events if e.kind == "call" and (e.callee or "") in ("std::sort", "std::stable_sort")]
         problems = []
+        unclear_sort = [x[0] for x in fk.unknown]
         if len(calls) != 1:
             problems.append("%d sort calls" % len(calls))
         else:
@@ -1605,7 +1821,7 @@ def rule_serial(w):
                         and fk.array_of(_subscript(x)[0]).key == "this._domain_ptr"]
                 begins = [x for x in walk(a) if x.get("k") == "MCall" and x.get("n") == "begin" and fk.okey(x.get("obj")) == "this._image_idx"]
                 if len(subs) != 1 or len(begins) != 1:
-                    problems.append("sort bound %s is not _image_idx.begin() + _domain_ptr[.]" % render(a)[:60])
+                    unclear_sort.append("sort bound %s is not of the form _image_idx.begin() + _domain_ptr[.]" % render(a)[:60])
                 else:
                     ends.append(_subscript(subs[0])[1])
             if len(ends) == 2:
@@ -1616,6 +1832,9 @@ def rule_serial(w):
                 ok1 = a1.get("k") == "Bin" and a1.get("op") == "+" and strip(a1["lhs"]).get("d") == v and fk.size(a1["rhs"]) == Lin.const(1)
                 if not (ok0 and ok1):
                     problems.append("sorted range is [_domain_ptr[%s], _domain_ptr[%s]), not the adjacency list [_domain_ptr[i], _domain_ptr[i+1]) of one node" % (render(a0), render(a1)))
+        if unclear_sort and not problems:
+            ck.incomplete("E2.sort-segment", "Graph::sort_indices(): %s" % "; ".join(unclear_sort))
+            continue
         ck.ob("E2.sort-segment", "Graph::sort_indices()", not problems, "; ".join(problems) if problems else
               "std::sort over [_image_idx.begin()+_domain_ptr[i], _image_idx.begin()+_domain_ptr[i+1]) for every domain node i", fn.file, fn.line)
 
@@ -1630,7 +1849,7 @@ def run(tier):
     ck.rule("E2.adj-list", "an image iteration uses image_begin(n)/image_end(n) of the same adjactor and node; an offset segment uses P[n],P[n+1] of the same "
             "array and node (otherwise a different node's adjacency list is traversed)", 16)
     ck.rule("E2.unsigned-pred", "`E - c` on the unsigned length E of a Graph/Permutation array is dominated by a check E >= c "
-            "(breaks for the empty graph / the empty permutation, which the classes construct and return)", 5)
+            "(breaks for the empty graph / the empty permutation, which the classes construct and return)", 4)
     ck.rule("E13.render-dispatch", "every RenderType case of the two render constructors calls the render function whose result has the documented shape: "
             "`transpose` <-> domain/image swapped, `injectify` <-> duplicate filter, `_sorted` <-> sort_indices() (transposes are sorted by construction), "
             "adjactors passed in order (base.hpp RenderType documentation)", 16)
